@@ -32,3 +32,7 @@ pub fn str_slice<'a>(s: &'a str, a: usize, b: usize, Ghost(ka): Ghost<int>, Ghos
     requires 0 <= ka <= kb <= s@.len(), a == byte_off(s, ka), b == byte_off(s, kb),
     ensures r@ == s@.subrange(ka, kb)
 { &s[a..b] }
+
+/// `s.len()` (R14: byte length): the byte offset one past the last character
+#[verifier::external_body]
+pub fn str_byte_len(s: &str) -> (r: usize) ensures r == byte_off(s, s@.len() as int) { s.len() }
